@@ -1,5 +1,26 @@
 import GPVerif.Gen.Settings
+import GPVerif.Model.SettingsExt
 open Settings Gen.Settings
+
+/-- `nargs (fid val)^nargs` → the constructor's argument frame (unspecified parameters take their declared defaults) and
+the remaining tokens. -/
+def parseArgs (d : ClassDesc) (n : Nat) (rest : List String) : Option (Frame × List String) :=
+  let argToks := rest.take (2 * n)
+  if argToks.length < 2 * n then none else
+  let rec mk (l : List String) (acc : Frame) : Option Frame :=
+    match l with
+    | f :: v :: tl => do
+        let f ← f.toNat?
+        let v : Val ← if v = "N" then some none else v.toNat?.map some
+        mk tl (setF acc f v)
+    | [] => some acc
+    | _ => none
+  let base : Frame := fun p => match d.params.find? (·.1 = p) with
+    | some (_, some dv) => dv
+    | _ => none
+  do
+    let args ← mk argToks base
+    some (args, rest.drop (2 * n))
 
 /-- tokens → program.  Grammar:  prog := item* ; item := "P" | "R" | "W" cid nargs (fid val)^nargs prog "E" -/
 partial def parseProg (ts : List String) : Option (Prog × List String) :=
@@ -16,22 +37,8 @@ partial def parseProg (ts : List String) : Option (Prog × List String) :=
       let cid ← cid.toNat?
       let n ← nargs.toNat?
       let d ← classes.find? (·.id = cid)
-      let argToks := rest.take (2 * n)
-      if argToks.length < 2 * n then none else
-      let rec mk (l : List String) (acc : Frame) : Option Frame :=
-        match l with
-        | f :: v :: tl => do
-            let f ← f.toNat?
-            let v : Val ← if v = "N" then some none else v.toNat?.map some
-            mk tl (setF acc f v)
-        | [] => some acc
-        | _ => none
-      -- unspecified parameters take their declared defaults
-      let base : Frame := fun p => match d.params.find? (·.1 = p) with
-        | some (_, some dv) => dv
-        | _ => none
-      let args ← mk argToks base
-      let (body, r) ← parseProg (rest.drop (2 * n))
+      let (args, rest') ← parseArgs d n rest
+      let (body, r) ← parseProg rest'
       match r with
       | "E" :: r' => do
           let (q, r'') ← parseProg r'
@@ -39,27 +46,142 @@ partial def parseProg (ts : List String) : Option (Prog × List String) :=
       | _ => none
   | _ => none
 
-def dump (σ : Store) : String :=
-  ",".intercalate (classes.flatMap fun d => d.fields.map fun (f, _) =>
-    match σ d.id f with | none => "N" | some k => toString k)
+/-- `k (cid nargs (fid val)^nargs)^k` → the items of a multi-manager `with` -/
+partial def parseItems (k : Nat) (ts : List String) : Option (List (ClassDesc × Frame) × List String) :=
+  match k with
+  | 0 => some ([], ts)
+  | k + 1 =>
+    match ts with
+    | cid :: nargs :: rest => do
+        let cid ← cid.toNat?
+        let n ← nargs.toNat?
+        let d ← classes.find? (·.id = cid)
+        let (args, rest') ← parseArgs d n rest
+        let (more, r) ← parseItems k rest'
+        some ((d, args) :: more, r)
+    | _ => none
 
-def step (line : String) : String :=
-  -- first token: "S" (warnings escalated to errors) or "L" (lenient)
+/-- extended grammar:  item := "P" | "R" | "W" cid nargs args prog "E" | "M" k (cid nargs args)^k prog "E"
+  | "T" prog "E"   (try: prog / except: pass)
+  | "X" prog "E"   (with ExitStack() as es: prog) | "C" cid nargs args   (es.enter_context(cid(args))) -/
+partial def parseX (ts : List String) : Option (XProg × List String) :=
+  match ts with
+  | [] => some (.skip, [])
+  | "E" :: _ => some (.skip, ts)
+  | "P" :: rest => do
+      let (q, r) ← parseX rest
+      some (.seq .probe q, r)
+  | "R" :: rest => do
+      let (q, r) ← parseX rest
+      some (.seq .raise q, r)
+  | "C" :: cid :: nargs :: rest => do
+      let cid ← cid.toNat?
+      let n ← nargs.toNat?
+      let d ← classes.find? (·.id = cid)
+      let (args, rest') ← parseArgs d n rest
+      let (q, r) ← parseX rest'
+      some (.seq (.enterCtx d args) q, r)
+  | "W" :: cid :: nargs :: rest => do
+      let cid ← cid.toNat?
+      let n ← nargs.toNat?
+      let d ← classes.find? (·.id = cid)
+      let (args, rest') ← parseArgs d n rest
+      let (body, r) ← parseX rest'
+      match r with
+      | "E" :: r' => do
+          let (q, r'') ← parseX r'
+          some (.seq (.withC d args body) q, r'')
+      | _ => none
+  | "M" :: k :: rest => do
+      let k ← k.toNat?
+      let (items, rest') ← parseItems k rest
+      let (body, r) ← parseX rest'
+      match r with
+      | "E" :: r' => do
+          let (q, r'') ← parseX r'
+          some (.seq (.withMany items body) q, r'')
+      | _ => none
+  | "T" :: rest => do
+      let (body, r) ← parseX rest
+      match r with
+      | "E" :: r' => do
+          let (q, r'') ← parseX r'
+          some (.seq (.attempt body) q, r'')
+      | _ => none
+  | "X" :: rest => do
+      let (body, r) ← parseX rest
+      match r with
+      | "E" :: r' => do
+          let (q, r'') ← parseX r'
+          some (.seq (.stack body) q, r'')
+      | _ => none
+  | _ => none
+
+/-- thread events:  ev := "e" tid cid nargs args | "x" tid | "p" tid -/
+partial def parseT (ts : List String) : Option (List TEv) :=
+  match ts with
+  | [] => some []
+  | "p" :: t :: rest => do
+      let t ← t.toNat?
+      let q ← parseT rest
+      some (.probe t :: q)
+  | "x" :: t :: rest => do
+      let t ← t.toNat?
+      let q ← parseT rest
+      some (.exit t :: q)
+  | "e" :: t :: cid :: nargs :: rest => do
+      let t ← t.toNat?
+      let cid ← cid.toNat?
+      let n ← nargs.toNat?
+      let d ← classes.find? (·.id = cid)
+      let (args, rest') ← parseArgs d n rest
+      let q ← parseT rest'
+      some (.enter t d args :: q)
+  | _ => none
+
+def slotList : List (Nat × Nat) := classes.flatMap fun d => d.fields.map fun (f, _) => (d.id, f)
+
+def dump (slots : List (Nat × Nat)) (σ : Store) : String :=
+  ",".intercalate (slots.map fun (c, f) => match σ c f with | none => "N" | some k => toString k)
+
+def reply (slots : List (Nat × Nat)) (raised : Bool) (store : Store) (trace : List Store) : String :=
+  s!"raised={if raised then 1 else 0};final={dump slots store};trace=" ++ "|".intercalate (trace.reverse.map (dump slots))
+
+/-- `tab` = `tabOf 64 (initialStore classes)`, computed once in `main`; the initial store of every program is
+`ofTable tab (initialStore classes)` = `initialStore classes` (`C20.ofTable_tabOf`). -/
+def step (slots : List (Nat × Nat)) (tab : Array (Array Val)) (line : String) : String :=
+  let σ0 : Store := ofTable tab (initialStore classes)
+  -- first token: "S" (warnings escalated to errors) or "L" (lenient): single-manager programs, `Prog.run`;
+  -- "XS"/"XL": extended programs, `XProg.run`;  "TS"/"TL": thread interleavings, `runThreads`
   let toks := (line.splitOn " ").filter (· ≠ "")
-  let strict := toks.head? == some "S"
-  match parseProg (toks.drop 1) with
-  | some (p, []) =>
-    let r := p.run strict (initialStore classes) []
-    s!"raised={if r.raised then 1 else 0};final={dump r.store};trace=" ++ "|".intercalate (r.trace.reverse.map dump)
-  | _ => "bad-program"
+  match toks.head? with
+  | some "XS" | some "XL" =>
+    match parseX (toks.drop 1) with
+    | some (p, []) =>
+      let r := p.run (toks.head? == some "XS") σ0 [] []
+      reply slots r.raised r.store r.trace ++ s!";pending={r.pend.length}"
+    | _ => "bad-program"
+  | some "TS" | some "TL" =>
+    match parseT (toks.drop 1) with
+    | some evs =>
+      let s := runThreads (toks.head? == some "TS") evs σ0
+      reply slots false s.store s.trace
+    | none => "bad-program"
+  | _ =>
+    let strict := toks.head? == some "S"
+    match parseProg (toks.drop 1) with
+    | some (p, []) =>
+      let r := p.run strict σ0 []
+      reply slots r.raised r.store r.trace
+    | _ => "bad-program"
 
-partial def loop (h : IO.FS.Stream) (o : IO.FS.Stream) : IO Unit := do
+partial def loop (slots : List (Nat × Nat)) (tab : Array (Array Val)) (h : IO.FS.Stream) (o : IO.FS.Stream) : IO Unit := do
   let line ← h.getLine
   if line.isEmpty then return ()
-  o.putStrLn (step (String.ofList (line.toList.filter (fun c => c ≠ '\n' && c ≠ '\r'))))
-  loop h o
+  o.putStrLn (step slots tab (String.ofList (line.toList.filter (fun c => c ≠ '\n' && c ≠ '\r'))))
+  loop slots tab h o
 
 def main : IO Unit := do
   let o ← IO.getStdout
-  loop (← IO.getStdin) o
+  loop slotList (tabOf 64 (initialStore classes)) (← IO.getStdin) o
   o.flush
